@@ -510,6 +510,10 @@ func caseC11(c *Ctx) {
 		c.Skip("simple-mode panic (C12's business)")
 	}
 
+	if len(plan.kinds) == 0 && arm != "extended" && c.Chance(1, 3) {
+		c11EnumCancel(c, s, arm, mk, ref, refSnap, trees)
+		return
+	}
 	d2 := s.prepareTarget(c, 2)
 	env := mk(d2)
 	plan.apply(env)
@@ -525,6 +529,11 @@ func caseC11(c *Ctx) {
 	}
 	c.st.Sample(arm+"/"+strings.Join(plan.kinds, "+"), map[string]any{"arm": arm, "op": s.op.String(), "doc": string(s.doc), "faults": plan.String(), "steps": got.Steps, "result": errStr(got.Err), "cancel_step": got.CancelStep})
 
+	judgeC11(c, s, arm, plan.ctx.Mode, ref, refSnap, got, gotSnap, trees, env.MaxSteps)
+}
+
+// judgeC11 applies C11's oracles to one massive-mode run.
+func judgeC11(c *Ctx, s *massiveScenario, arm, ctxMode string, ref *Outcome, refSnap string, got *Outcome, gotSnap string, trees []*MNode, maxSteps int) {
 	cls := strings.Join(s.classes(), "+")
 	if ps := firstPanicSig(got); ps != "" {
 		// a crash is C12's verdict; C11 only notes it (the run's remaining observations
@@ -533,7 +542,7 @@ func caseC11(c *Ctx) {
 		return
 	}
 	if got.StepCap {
-		c.Failf("C11:livelock:"+s.op.Kind, "step cap (%d) exceeded: the call does not terminate under this schedule", env.MaxSteps)
+		c.Failf("C11:livelock:"+s.op.Kind, "step cap (%d) exceeded: the call does not terminate under this schedule", maxSteps)
 	}
 	if got.Hang {
 		c.Failf("C11:hang:"+leakOrCallerSite(got), "the call never returned; at final quiescence:\n%s", hangDetail(got))
@@ -549,7 +558,7 @@ func caseC11(c *Ctx) {
 	if got.CancelFired && got.CancelBeforeReturn {
 		c.st.Count("cancel-before-return")
 		want := context.Canceled
-		if plan.ctx.Mode == "deadline" {
+		if ctxMode == "deadline" {
 			want = context.DeadlineExceeded
 		}
 		switch {
@@ -564,7 +573,7 @@ func caseC11(c *Ctx) {
 			}
 			otherFault := got.ReaderFired || got.WriterFired || got.CbFired || got.DiskFired > 0
 			if !complete && !otherFault && !(arm == "extended" && !strings.HasPrefix(why, "output-truncated") && !strings.HasPrefix(why, "walk-truncated")) {
-				c.Failf("C11:cancelled-but-nil-incomplete:"+s.op.Kind+":"+cls, "context %s at step %d before the call returned; the call returned nil with an incomplete result (%s)", plan.ctx.Mode, got.CancelStep, why)
+				c.Failf("C11:cancelled-but-nil-incomplete:"+s.op.Kind+":"+cls, "context %s at step %d before the call returned; the call returned nil with an incomplete result (%s)", ctxMode, got.CancelStep, why)
 			}
 			c.st.Count("cancel:nil-complete")
 		case errors.Is(got.Err, want):
@@ -573,7 +582,7 @@ func caseC11(c *Ctx) {
 			explained := ref.Err != nil || got.ReaderFired || got.WriterFired || got.CbFired || got.DiskFired > 0
 			// on the extended spellings massive mode may fail where simple mode does not
 			// (C10's known findings); that is not judged a second time here
-			if !explained && arm != "extended" {
+			if !explained && arm != "extended" && !strings.Contains(cls, "mixed-units") && !strings.Contains(cls, "sharp-roots") {
 				c.Failf("C11:cancelled-unexplained-error:"+s.op.Kind, "context cancelled at step %d; the call returned %q, which is neither the context's error nor an error of the input or an injected fault", got.CancelStep, got.Err)
 			}
 			c.st.Count("cancel:other-true-error")
@@ -819,4 +828,57 @@ func differingFirstIndents(doc []byte) bool {
 		}
 	}
 	return false
+}
+
+// c11EnumCancel: one fault-free base schedule of N steps, then the same schedule with the
+// caller's context cancelled at step k, for EVERY k in 0..N (thorough tier) or for an
+// evenly spread subset (quick tier). After the cancellation the schedule continues with a
+// seeded uniform strategy.
+func c11EnumCancel(c *Ctx, s *massiveScenario, arm string, mk func(*DiskPlan) *Env, ref *Outcome, refSnap string, trees []*MNode) {
+	rp := readerPlanFor(c)
+	d0 := s.prepareTarget(c, 3)
+	env0 := mk(d0)
+	env0.Reader = rp
+	env0.MaxSteps = 40000 + 4*len(s.doc)
+	base := c.Sim("base", s.op, env0)
+	dropJail(d0)
+	baseSched := append([]int(nil), c.SchedOut["base"]...)
+	n := base.Steps
+	c.st.Count("cancel-enumeration.cases")
+	var ks []int
+	if k, ok := c.Param("k"); ok {
+		ks = []int{k}
+	} else if *fTier == "thorough" || n <= 24 {
+		for k := 0; k <= n; k++ {
+			ks = append(ks, k)
+		}
+	} else {
+		off := int(mix(c.Seed, 77) % uint64(n/16+1))
+		for k := off; k <= n; k += n/16 + 1 {
+			ks = append(ks, k)
+		}
+	}
+	c.Scenario["faults"] = fmt.Sprintf("cancellation enumerated over a base schedule of %d steps (%d instants)", n, len(ks))
+	for _, k := range ks {
+		name := fmt.Sprintf("k%d", k)
+		d := s.prepareTarget(c, 4)
+		env := mk(d)
+		env.Reader = rp
+		env.Ctx = CtxPlan{Mode: "cancel", AtStep: k}
+		env.MaxSteps = 40000 + 4*len(s.doc)
+		env.Level2 = level2Build
+		env.Chooser = c.ChooserFrom(name, baseSched, uint64(k)+1)
+		c.SetParam("k", k)
+		c.Scenario["cancel_at_step"] = k
+		got := c.Sim(name, s.op, env)
+		gotSnap := targetSnap(d)
+		dropJail(d)
+		c.st.Count("cancel-enumeration.runs")
+		if got.CancelFired && got.Probes["sched.choice>=2"] > 0 {
+			c.st.Distinct("nontrivial", mix(hashStr(string(s.doc)+s.op.String()+name), got.TraceHash))
+		}
+		judgeC11(c, s, arm, "cancel", ref, refSnap, got, gotSnap, trees, env.MaxSteps)
+		c.dropSched(name)
+	}
+	c.st.Sample("cancel-enumeration", map[string]any{"arm": arm, "op": s.op.String(), "doc": string(s.doc), "base_steps": n, "cancel_instants_enumerated": len(ks)})
 }
